@@ -28,6 +28,12 @@ type lcEvent struct {
 	DecP2   Ret      `json:"decP2"`
 	StoreP1 V        `json:"storeP1"` // field after the setter
 	StoreP2 V        `json:"storeP2"`
+	HeldP1  Ret      `json:"heldP1"` // the setter on a claims-set that already holds this very value (put in place)
+	HeldP2  Ret      `json:"heldP2"`
+	OverP1  Ret      `json:"overP1"` // the setter on a claims-set holding 0x3000
+	OverP2  Ret      `json:"overP2"`
+	KeptP1  V        `json:"keptP1"` // field after that
+	KeptP2  V        `json:"keptP2"`
 }
 
 func lcGet(c psatoken.IClaims) Ret {
@@ -62,6 +68,16 @@ func init() {
 				fatal("decode p2: %v", err)
 			}
 			ev.DecP1, ev.DecP2 = lcGet(d1), lcGet(d2)
+			// the verdict of the setter does not depend on what the claims-set holds already
+			h1, h2 := v, v
+			ev.HeldP1 = mkRet((&psatoken.P1Claims{SecurityLifeCycle: &h1, CanonicalProfile: psatoken.Profile1Name}).SetSecurityLifeCycle(v), absent())
+			ev.HeldP2 = mkRet((&psatoken.P2Claims{SecurityLifeCycle: &h2, CanonicalProfile: psatoken.Profile2Name}).SetSecurityLifeCycle(v), absent())
+			s1, s2 := uint16(0x3000), uint16(0x3000)
+			o1 := &psatoken.P1Claims{SecurityLifeCycle: &s1, CanonicalProfile: psatoken.Profile1Name}
+			o2 := &psatoken.P2Claims{SecurityLifeCycle: &s2, CanonicalProfile: psatoken.Profile2Name}
+			ev.OverP1 = mkRet(o1.SetSecurityLifeCycle(v), absent())
+			ev.OverP2 = mkRet(o2.SetSecurityLifeCycle(v), absent())
+			ev.KeptP1, ev.KeptP2 = AbsClaims(o1).Lifecycle, AbsClaims(o2).Lifecycle
 			t.Emit(ev, true, i%4096 == 0 || i%4096 == 255 || i%4096 == 256 || i%4096 == 4095)
 		}
 		t.Close(nil)
